@@ -1,1 +1,223 @@
-/-! C14 — property theorems (stub: nothing proved yet). -/
+import B6.Lemmas.MutableRoot
+/-!
+# C14 — Snapshots never change after they are taken
+
+Model: `Store` = a root world and the stack of `MutableOverlayWorld` states (live object first, then
+the snapshots it was taken over).  `Snapshot()` is `copy := *m; copy.index = {same postings, features:
+&copy}; m.base = &copy; m.features/references/tags/index := fresh` (mutable.go after
+`fixes/C14-snapshot-index-resolves-via-snapshot.patch`): the live object's state is frozen under a new
+handle and the live object continues in an empty layer on top.  The one piece of aliasing that a struct
+copy leaves behind — the index's `features` back-pointer to the live object — is part of the model
+(`Layer.aliasLive`): `Store.snapshot` clears it (the repaired code), `Store.snapshotAliased` keeps it
+(the code before the repair), and `snapshot_index_alias_counterexample` shows that the model does
+distinguish the two.  `TagsStore` is `MutableTagsOverlayWorld`.
+-/
+namespace B6.Props.C14
+open B6.Model.Mutable
+
+/-- operations on a store: an edit of the live world, or another (nested) snapshot -/
+inductive StoreOp where
+  | edit (op : Op)
+  | snapshot
+
+def Store.apply (o : Oracle) (s : Store) : StoreOp → Store
+  | .edit op => (s.step o op).1
+  | .snapshot => s.snapshot.1
+
+def Store.run (o : Oracle) (s : Store) (ops : List StoreOp) : Store := ops.foldl (Store.apply o) s
+
+/-- no frozen layer's index points at the live object -/
+def NoAlias (ls : List Layer) : Prop := ∀ l ∈ ls, l.aliasLive = false
+
+theorem layer_view_noalias (b : View) (l : Layer) (h : l.aliasLive = false) (ll1 ll2 : Id → Option Pt) :
+    l.view b ll1 = l.view b ll2 := by
+  simp only [Layer.view, View.mk.injEq, true_and, and_true]
+  funext id
+  simp [Layer.hitFV, h]
+
+/-- a stack of worlds none of which aliases the live object does not depend on the live object -/
+theorem viewOf_noalias (root : View) (ls : List Layer) (h : NoAlias ls) (ll1 ll2 : Id → Option Pt) :
+    viewOf root ll1 ls = viewOf root ll2 ls := by
+  induction ls with
+  | nil => rfl
+  | cons l below ih =>
+    simp only [viewOf]
+    rw [ih (fun x hx => h x (List.mem_cons_of_mem _ hx)), layer_view_noalias _ l (h l List.mem_cons_self) ll1 ll2]
+
+/-- the frozen part of a store: the `frozen` layers at the bottom, at least one layer on top -/
+def Extends (s : Store) (root : View) (frozen : List Layer) : Prop :=
+  s.root = root ∧ ∃ pre, pre ≠ [] ∧ s.layers = pre ++ frozen
+
+theorem step_layers (o : Oracle) (s : Store) (p : Layer) (rest : List Layer) (op : Op) (h : s.layers = p :: rest) :
+    (s.step o op).1.root = s.root ∧ (s.step o op).1.layers = (p.step s.baseView o op).1 :: rest := by
+  simp [Store.step, h]
+
+theorem extends_apply {o : Oracle} {s : Store} {root : View} {frozen : List Layer} (h : Extends s root frozen)
+    (op : StoreOp) : Extends (Store.apply o s op) root frozen := by
+  obtain ⟨hr, pre, hne, hl⟩ := h
+  cases pre with
+  | nil => exact absurd rfl hne
+  | cons p ps =>
+    cases op with
+    | edit op =>
+      obtain ⟨h1, h2⟩ := step_layers o s p (ps ++ frozen) op (by simpa using hl)
+      exact ⟨by simp only [Store.apply]; rw [h1, hr], (p.step s.baseView o op).1 :: ps, by simp,
+             by simp only [Store.apply]; rw [h2]; simp⟩
+    | snapshot =>
+      simp only [Store.apply, Store.snapshot, hl, List.cons_append]
+      exact ⟨hr, Layer.empty :: { p with aliasLive := false } :: ps, by simp, by simp⟩
+
+theorem extends_run {o : Oracle} {root : View} {frozen : List Layer} (ops : List StoreOp) :
+    ∀ s : Store, Extends s root frozen → Extends (Store.run o s ops) root frozen := by
+  induction ops with
+  | nil => intro s h; exact h
+  | cons op rest ih => intro s h; exact ih _ (extends_apply h op)
+
+theorem snap_of_extends {s : Store} {root : View} {frozen : List Layer} (h : Extends s root frozen)
+    (hn : NoAlias frozen) (ll : Id → Option Pt) :
+    s.snap frozen.length = viewOf root ll frozen := by
+  obtain ⟨hr, pre, _, hl⟩ := h
+  unfold Store.snap
+  rw [hl, hr]
+  have : (pre ++ frozen).length - frozen.length = pre.length := by simp
+  rw [this, List.drop_left]
+  exact viewOf_noalias root frozen hn _ _
+
+/-- **Snapshots are frozen.** Take a snapshot of any store whose older snapshots are alias-free; then
+apply any sequence of edits (accepted or rejected) and further snapshots to the live world: the
+snapshot — every lookup, tag, location, search result and what it is wrapped as, reference list and
+enumeration, i.e. the whole `View` — is the same function as at the moment it was taken. -/
+theorem snapshot_frozen (o : Oracle) (s : Store) (l : Layer) (below : List Layer)
+    (hs : s.layers = l :: below) (hn : NoAlias below) (ops : List StoreOp) :
+    (Store.run o s.snapshot.1 ops).snap s.snapshot.2 = s.snapshot.1.snap s.snapshot.2 := by
+  have hsnap : s.snapshot = ({ s with layers := Layer.empty :: { l with aliasLive := false } :: below }, below.length + 1) := by
+    simp [Store.snapshot, hs]
+  rw [hsnap]
+  simp only
+  let frozen := { l with aliasLive := false } :: below
+  have hfr : NoAlias frozen := by
+    intro x hx
+    rcases List.mem_cons.1 hx with rfl | hx
+    · rfl
+    · exact hn x hx
+  have hlen : below.length + 1 = frozen.length := by simp [frozen]
+  have h0 : Extends { s with layers := Layer.empty :: frozen } s.root frozen :=
+    ⟨rfl, [Layer.empty], by simp, rfl⟩
+  have h1 := extends_run (o := o) ops _ h0
+  rw [hlen, snap_of_extends h1 hfr (fun _ => none), snap_of_extends h0 hfr (fun _ => none)]
+
+theorem layer_loc_congr {b1 b2 : View} (h : b1.loc = b2.loc) (l : Layer) : l.loc b1 = l.loc b2 := by
+  funext i; simp [Layer.loc, h]
+
+theorem layer_find_congr {b1 b2 : View} (hf : b1.find = b2.find) (hl : b1.loc = b2.loc) (l : Layer) :
+    l.find b1 = l.find b2 := by
+  funext i; simp [Layer.find, hf, layer_loc_congr hl]
+
+/-- lookups and locations never consult the index back-pointer -/
+theorem viewOf_find_loc (root : View) (ll1 ll2 : Id → Option Pt) : ∀ ys : List Layer,
+    (viewOf root ll1 ys).find = (viewOf root ll2 ys).find ∧ (viewOf root ll1 ys).loc = (viewOf root ll2 ys).loc := by
+  intro ys
+  induction ys with
+  | nil => exact ⟨rfl, rfl⟩
+  | cons y ys ih =>
+    exact ⟨layer_find_congr ih.1 ih.2 y, layer_loc_congr ih.2 y⟩
+
+theorem tagOf_empty_layer (b : View) (ll : Id → Option Pt) (id : Id) (k : Key) :
+    tagOf (Layer.empty.view b ll) id k = tagOf b id k := by
+  rw [tagOf_view, layerTag_none (by simp [Layer.empty])]
+  simp only [Layer.empty, modsOf, AMap.get_nil, modLookup]
+  cases tagOf b id k <;> rfl
+
+/-- taking the snapshot does not change what the live world shows (tags and existence) -/
+theorem snapshot_keeps_live (s : Store) (l : Layer) (below : List Layer) (hs : s.layers = l :: below)
+    (id : Id) (k : Key) : tagOf s.snapshot.1.live id k = tagOf s.live id k := by
+  simp only [Store.snapshot, hs, Store.live, viewOf]
+  rw [tagOf_empty_layer]
+  simp only [tagOf, find_view]
+  have h1 := (viewOf_find_loc s.root (locOf s.root (Layer.empty :: { l with aliasLive := false } :: below))
+    (locOf s.root (l :: below)) below)
+  rw [layer_find_congr h1.1 h1.2]
+  rfl
+
+/-! ## The defect the repair removed, in the model -/
+
+def exRoot : List Feature := [⟨1, [], .point (0, 0)⟩, ⟨2, [], .point (0, 10)⟩]
+def exOracle : Oracle := ⟨fun _ => true, fun _ => false⟩
+/-- live world: an overlay path 1009 = [1,2] tagged `#highway=pub` -/
+def exStore : Store :=
+  (Store.step exOracle ⟨rootView exRoot, [Layer.empty]⟩
+    (.addFeature ⟨1009, [("#highway", ⟨"s", "pub"⟩)], .path [1, 2]⟩)).1
+/-- then point 1 is moved in the live world -/
+def exMove : Op := .addFeature ⟨1, [], .point (5, 5)⟩
+
+/-- with the index left pointing at the live object (`copy := *m` alone), the path a search of the
+snapshot returns resolves its first point through the later edit: the snapshot changed -/
+theorem snapshot_index_alias_counterexample :
+    (exStore.snapshotAliased.1.snap 1).hitFV 1009 ≠
+      ((Store.step exOracle exStore.snapshotAliased.1 exMove).1.snap 1).hitFV 1009 := by
+  decide
+
+/-- … while with the repaired `Snapshot()` the same history leaves it alone (an instance of
+`snapshot_frozen`, here by evaluation), and the live world shows the move -/
+example :
+    (exStore.snapshot.1.snap 1).hitFV 1009 = ((Store.step exOracle exStore.snapshot.1 exMove).1.snap 1).hitFV 1009 ∧
+    (exStore.snapshot.1.snap 1).hitFV 1009 = some ⟨⟨1009, [("#highway", ⟨"s", "pub"⟩)], .path [1, 2]⟩, some [(0, 0), (0, 10)]⟩ ∧
+    ((Store.step exOracle exStore.snapshot.1 exMove).1.live).loc 1 = some (5, 5) := by
+  decide
+
+/-- the hypotheses of `snapshot_frozen` hold for `exStore` -/
+example : ∃ l, exStore.layers = l :: [] ∧ NoAlias ([] : List Layer) := by
+  refine ⟨_, rfl, ?_⟩
+  intro l hl; cases hl
+
+/-! ## `MutableTagsOverlayWorld` -/
+
+inductive TagsOp where
+  | addTag (id : Id) (t : Tag)
+  | snapshot
+
+def TagsStore.apply (s : TagsStore) : TagsOp → TagsStore
+  | .addTag id t => s.addTag id t
+  | .snapshot => s.snapshot.1
+
+def TagsStore.run (s : TagsStore) (ops : List TagsOp) : TagsStore := ops.foldl TagsStore.apply s
+
+def TExtends (s : TagsStore) (root : View) (frozen : List (List (Id × Mods))) : Prop :=
+  s.root = root ∧ ∃ pre, pre ≠ [] ∧ s.layers = pre ++ frozen
+
+theorem textends_apply {s : TagsStore} {root : View} {frozen : List (List (Id × Mods))} (h : TExtends s root frozen)
+    (op : TagsOp) : TExtends (TagsStore.apply s op) root frozen := by
+  obtain ⟨hr, pre, hne, hl⟩ := h
+  cases pre with
+  | nil => exact absurd rfl hne
+  | cons p ps =>
+    cases op with
+    | addTag id t =>
+      simp only [TagsStore.apply, TagsStore.addTag, hl, List.cons_append]
+      exact ⟨hr, modsSet p id t.1 (.set t.2) :: ps, by simp, by simp⟩
+    | snapshot =>
+      simp only [TagsStore.apply, TagsStore.snapshot, hl]
+      exact ⟨hr, [] :: p :: ps, by simp, by simp⟩
+
+/-- **Snapshots of a tags overlay are frozen**: any later `AddTag`s and snapshots leave every lookup of
+the snapshot as it was. -/
+theorem tags_snapshot_frozen (s : TagsStore) (ops : List TagsOp) :
+    (TagsStore.run s.snapshot.1 ops).snap s.snapshot.2 = s.snapshot.1.snap s.snapshot.2 := by
+  have h0 : TExtends s.snapshot.1 s.root s.layers := ⟨rfl, [[]], by simp, by simp [TagsStore.snapshot]⟩
+  have h1 : TExtends (TagsStore.run s.snapshot.1 ops) s.root s.layers := by
+    unfold TagsStore.run
+    generalize s.snapshot.1 = s0 at h0
+    induction ops generalizing s0 with
+    | nil => exact h0
+    | cons op rest ih => exact ih _ (textends_apply h0 op)
+  have key : ∀ s' : TagsStore, TExtends s' s.root s.layers → s'.snap s.layers.length = tagsFind s.root s.layers := by
+    intro s' h
+    obtain ⟨hr, pre, _, hl⟩ := h
+    unfold TagsStore.snap
+    rw [hl, hr]
+    have : (pre ++ s.layers).length - s.layers.length = pre.length := by simp
+    rw [this, List.drop_left]
+  show (TagsStore.run s.snapshot.1 ops).snap s.layers.length = s.snapshot.1.snap s.layers.length
+  rw [key _ h1, key _ h0]
+
+end B6.Props.C14
